@@ -1,7 +1,7 @@
 """Configuration of the C06 check (see lib/props.py)."""
 P = {'id': 'C06',
  'level': 'proof',
- 'theorems': ['norm_avoids_markers'],
+ 'theorems': ['norm_avoids_markers', 'std_refines_map', 'remove_loop_is_get_loop', 'sentinel_unmapped_refuted', 'tombstone_first_slot_refuted', 'iter_tombstone_refuted', 'stub_refuted'],
  'trusted': [],
  'assumptions': [],
  'level_text': 'wip',
